@@ -1,10 +1,12 @@
 #!/bin/sh
 # usage: try_seed.sh <seed-id> <check> [tier]  -- apply the seeded patch to /repo, run the check, undo
+# SEED_REPO (default /repo): the tree the patch is applied to; a scratch worktree lets the matrix run beside other work
 id=$1; chk=$2; tier=${3:-quick}
-cd /verif
-[ -z "$(git -C /repo status --porcelain)" ] || { echo "refusing: /repo has uncommitted changes"; exit 2; }
-git -C /repo apply /verif/seeded/$id/patch.diff || { echo "$id: patch does not apply"; exit 2; }
-./check $chk --tier $tier > /tmp/try_${id}_$chk.log 2>&1; rc=$?
-git -C /repo checkout -- . 
+V=$(cd "$(dirname "$0")/.." && pwd); REPO=${SEED_REPO:-/repo}
+cd $V
+[ -z "$(git -C $REPO status --porcelain)" ] || { echo "refusing: $REPO has uncommitted changes"; exit 2; }
+git -C $REPO apply $V/seeded/$id/patch.diff || { echo "$id: patch does not apply"; exit 2; }
+SHAPEPY_SRC=$REPO/src ./check $chk --tier $tier > /tmp/try_${id}_$chk.log 2>&1; rc=$?
+git -C $REPO checkout -- . 
 nv=$(grep -c '^VIOLATION' /tmp/try_${id}_$chk.log)
 echo "seed=$id check=$chk tier=$tier exit=$rc violations_printed=$nv :: $(grep -m1 -A1 '^VIOLATION' /tmp/try_${id}_$chk.log | tail -1 | cut -c1-250)"
